@@ -14,6 +14,7 @@ import (
 	"reflect"
 	"regexp"
 	"runtime/debug"
+	"sort"
 	"strings"
 	"time"
 	"unicode"
@@ -361,6 +362,53 @@ func (w *walker) walk(v reflect.Value, parent *directives.Range, where string) {
 				continue
 			}
 			w.walk(v.Field(i), own, where+"."+sf.Name)
+		}
+		if w.f != nil {
+			return
+		}
+		// the direct children of one element do not overlap one another
+		type sib struct {
+			r    directives.Range
+			name string
+		}
+		var sibs []sib
+		var collect func(x reflect.Value, name string)
+		collect = func(x reflect.Value, name string) {
+			switch x.Kind() {
+			case reflect.Interface, reflect.Pointer:
+				if !x.IsNil() {
+					collect(x.Elem(), name)
+				}
+			case reflect.Slice, reflect.Array:
+				for i := 0; i < x.Len(); i++ {
+					collect(x.Index(i), fmt.Sprintf("%s[%d]", name, i))
+				}
+			case reflect.Struct:
+				xt := x.Type()
+				if absentOK[xt.Name()] && x.IsZero() {
+					return
+				}
+				if f, ok := xt.FieldByName("Range"); ok && f.Anonymous && f.Type == rangeType {
+					r := x.FieldByName("Range").Interface().(directives.Range)
+					if r.End > r.Start {
+						sibs = append(sibs, sib{r, name})
+					}
+				}
+			}
+		}
+		for i := 0; i < t.NumField(); i++ {
+			sf := t.Field(i)
+			if (sf.Anonymous && sf.Type == rangeType) || !sf.IsExported() {
+				continue
+			}
+			collect(v.Field(i), sf.Name)
+		}
+		sort.Slice(sibs, func(a, b int) bool { return sibs[a].r.Start < sibs[b].r.Start })
+		for i := 1; i < len(sibs); i++ {
+			if sibs[i].r.Start < sibs[i-1].r.End {
+				w.f = finding("siblings-overlap", "%s: children %s [%d,%d) and %s [%d,%d) overlap", where, sibs[i-1].name, sibs[i-1].r.Start, sibs[i-1].r.End, sibs[i].name, sibs[i].r.Start, sibs[i].r.End)
+				return
+			}
 		}
 	}
 }
